@@ -86,11 +86,13 @@ func fuzzyHashes() []string {
 		topology.GenerateFuzzyHash(poolTopos[0]) + "2"}
 }
 
-var poolEntropy = []float64{4.0, 0, 3.9999, 4.00004, 4.5, 8.0, 4.3, 5.0, 4.00006} // 4.00004 and 4.00006 differ by less than the index resolution but round to different index keys
+var poolEntropy = []float64{4.0, 0, 3.9999, 4.00004, 4.5, 8.0, 4.3, 5.0, 4.00006, 0.03125, 2.00005} // 4.00004 and 4.00006 differ by less than the index resolution but round to different index keys
 var poolTol = []float64{0, 0.1, 0.5, 0.0001}
 var poolThreshold = []float64{0.75, 0.3, 0.95, 1.0, 0.5}
 var poolScannerTol = []float64{0.5, 0.05, 1.0, 0.3}
-var entropyGrid = [][2]float64{{0, 8}, {4.0, 4.0}, {3.9999, 4.00004}, {4.00001, 5}, {0, 3.99995}, {4.5, 8}, {0, 0}, {5.0, 4.0}}
+// 0.03125 and 2.00005 sit exactly on (or next to) a rounding tie of the four-decimal index key
+var entropyGrid = [][2]float64{{0, 8}, {4.0, 4.0}, {3.9999, 4.00004}, {4.00001, 5}, {0, 3.99995}, {4.5, 8}, {0, 0}, {5.0, 4.0},
+	{0.03125, 0.03125}, {0, 0.03125}, {2.00005, 2.00005}, {0.0312, 2.00005}, {4.00006, 4.00006}}
 
 // ---- model ----
 
